@@ -222,6 +222,11 @@ def _gen_textgrid(rng, ntiers=(1, 5), nentries=(0, 7), keywords=False, min_gap=2
                 ts = sorted(set(ts) | {v for _, v in tiny_numbers(rng)[:2]})
             classes |= cl
             ents = [(t, gen_label(rng, keywords, blank_labels, ws_labels)) for t in ts[:n]]
+            if ents and rng.random() < 0.07:
+                # two marks on one instant (a tone and a break index): a point tier may hold them, and keeps them ordered by label
+                j = rng.randrange(len(ents))
+                ents[j:j + 1] = [(ents[j][0], "H*"), (ents[j][0], "L-")]
+                classes.add("two-points-at-one-time")
         lo = ents[0][0] if ents else 0.0
         hi = ents[-1][-2] if ents else 1.0
         tiers.append({"t": kind, "name": name, "entries": ents, "lo": lo, "hi": hi})
